@@ -6,6 +6,7 @@ CONSTANTS
  Pages = {0, 1, 2}
  TagDels = {0, 1}
  SubjSel = {"all"}
+ Spells = {"dig", "tag", "both"}
  Script <- NoScript
  SerialPrefix = 0
  ObsPolicy = "any"
@@ -20,6 +21,7 @@ CONSTANTS
  ListConc = FALSE
  CowIndex = TRUE
  InvAfterDel = TRUE
+ NormKey = TRUE
 INIT GInit
 NEXT GNext
 INVARIANTS Emit
